@@ -241,6 +241,44 @@ theorem flag_exact_creation (c : FlagClass) (hne : c.entries ≠ []) :
   · simp [he, hg, Create.isOk]
 
 
+/-! ## `ValidValue` in terms of the members (independent of `cover` / `call`)
+
+  `IsUnionOfMembers`, `ContainsNoMember` and the lemmas `cover_eq_self_iff` / `cover_eq_zero_iff`
+  are in `Lemmas/EnumSpec.lean`. -/
+
+/-- **What CPython's check amounts to, in terms of members**: a STRICT class refuses exactly the
+    values that contain some member without being a combination of members. -/
+theorem validValue_iff_members (c : FlagClass) (v : Nat) :
+    ValidValue c v ↔ (c.strict = true → ContainsNoMember c v ∨ IsUnionOfMembers c v) := by
+  unfold ValidValue
+  rw [cover_eq_zero_iff, cover_eq_self_iff]
+
+/-- **The exact-value flag loader, stated with members only.**  It accepts exactly the `int`s
+    `0 ≤ v ≤ mask` that are a combination of members — and, what the property statement does not
+    say, for a STRICT class also those that contain no member at all (CPython makes a nameless
+    pseudo-member of them), for a non-STRICT class (`IntFlag`, boundary KEEP) every `int` in range. -/
+theorem flag_exact_accepts_iff_members {c : FlagClass} {ld : PyVal → Outcome Nat}
+    (hl : flagExactLoader c = .ok ld) (d : PyVal) (v : Nat) :
+    ld d = .ok v ↔ d = .atom (.int v) ∧ v ≤ c.mask ∧
+      (c.strict = true → ContainsNoMember c v ∨ IsUnionOfMembers c v) := by
+  rw [flag_exact_accepts_iff hl, validValue_iff_members]
+
+/-- every combination of members is accepted … -/
+theorem flag_exact_accepts_unions {c : FlagClass} {ld : PyVal → Outcome Nat}
+    (hl : flagExactLoader c = .ok ld) {S : List FlagCase} (hS : ∀ s ∈ S, s ∈ c.membersValues) :
+    ld (.atom (.int (unionOf S))) = .ok (unionOf S) :=
+  flag_exact_rt hl hS
+
+/-- … and **the "exactly" of the property statement fails for the code as it is**: a value that is
+    not a combination of members is accepted — `class M(Flag): AB = 3; C = 4`, `load(1, M)` is the
+    pseudo-member `M(1)` (CPython refuses only values that contain a member, like 5 = C|1). -/
+theorem flag_exact_accepts_non_union :
+    ∃ (c : FlagClass) (ld : PyVal → Outcome Nat) (v : Nat), flagExactLoader c = .ok ld ∧
+      ld (.atom (.int v)) = .ok v ∧ ¬ IsUnionOfMembers c v := by
+  refine ⟨{ entries := [⟨"AB", 3⟩, ⟨"C", 4⟩] }, _, 1, rfl, by decide, ?_⟩
+  rw [← cover_eq_self_iff]
+  decide
+
 /-! ## Flag: representation by the list of member names -/
 
 /-- **Round trip, flag by member-name list**: for every flag class (zero-valued, compound,
@@ -551,5 +589,80 @@ example : ¬ InjectiveNames { entries := [⟨"a", .atom (.int 1), none⟩, ⟨"A
 example : (match enumNameLoader exEnum lowerCfg with
     | .ok ld => ld (.atom (.str "one")) | _ => .escape "") = .ok ⟨"ONE", .atom (.int 1)⟩ := by decide
 example : enumValueLoader exEnum .int (.atom (.bool true)) = .loadErr .typeLoad := by decide
+
+/-! ## Every theorem applied with all its hypotheses discharged (non-degenerate classes:
+    `exEnum` has an alias and an unhashable value, `exFlag` a zero, a compound and an aliased member) -/
+
+theorem exFlag_everyBitNamed : EveryBitNamed exFlag := by
+  intro m hm
+  have hmv : exFlag.membersValues = [⟨"Z", 0⟩, ⟨"A", 1⟩, ⟨"B", 2⟩, ⟨"AB", 3⟩, ⟨"C", 4⟩, ⟨"A", 1⟩] := by decide
+  rw [hmv] at hm
+  simp only [List.mem_cons, List.not_mem_nil, or_false] at hm
+  rcases hm with rfl | rfl | rfl | rfl | rfl | rfl
+  · exact ⟨[], by simp, by decide⟩
+  · exact ⟨[⟨"A", 1⟩], by decide, by decide⟩
+  · exact ⟨[⟨"B", 2⟩], by decide, by decide⟩
+  · exact ⟨[⟨"A", 1⟩, ⟨"B", 2⟩], by decide, by decide⟩
+  · exact ⟨[⟨"C", 4⟩], by decide, by decide⟩
+  · exact ⟨[⟨"A", 1⟩], by decide, by decide⟩
+
+theorem exEnum_wf : exEnum.WF := ⟨by decide, by decide⟩
+
+/-- `enum_exact_rt` applied: the member with the unhashable value round-trips -/
+example : ∃ v, enumExactDumper exEnum ⟨"L", .list [.int 1, .int 2]⟩ = some v ∧
+    enumExactLoader exEnum v = .ok ⟨"L", .list [.int 1, .int 2]⟩ :=
+  enum_exact_rt exEnum_wf (by decide)
+
+/-- `enum_exact_accepts_iff` applied in both directions -/
+example : ReprByValue exEnum (.atom (.bool true)) ⟨"ONE", .atom (.int 1)⟩ :=
+  (enum_exact_accepts_iff exEnum_wf (by decide) _).1 (by decide)
+
+example : enumExactLoader exEnum (.atom (.str "x")) = .loadErr (.badVariant (exactVariants exEnum)) :=
+  enum_exact_rejects exEnum_wf (by decide) (by
+    intro m hm
+    have := (enum_exact_accepts_iff exEnum_wf (d := .atom (.str "x")) (by decide) m).2 hm
+    have h2 : (enumExactLoader exEnum (.atom (.str "x"))).isLoadErr = true := by decide
+    rw [this] at h2
+    cases h2)
+
+/-- `enum_name_rt` applied (alias entry `T` included in the mapping) -/
+example : ∀ ld dp, enumNameLoader exEnum lowerCfg = .ok ld → enumNameDumper exEnum lowerCfg = .ok dp →
+    ∃ v, dp ⟨"L", .list [.int 1, .int 2]⟩ = some v ∧ ld v = .ok ⟨"L", .list [.int 1, .int 2]⟩ :=
+  fun _ _ hl hd => enum_name_rt hl hd (by decide) (by decide)
+
+example : (enumNameLoader exEnum lowerCfg).isOk = true ∧ (enumNameDumper exEnum lowerCfg).isOk = true :=
+  enum_name_creation (by decide)
+
+/-- `enum_value_rt` applied -/
+example : enumValueLoader exEnum .int (enumValueDumper .int ⟨"ONE", .atom (.int 1)⟩) = .ok ⟨"ONE", .atom (.int 1)⟩ :=
+  enum_value_rt exEnum_wf .int (by decide) (by decide)
+
+/-- `flag_exact_rt` applied to a union of a compound, a zero and an aliased member -/
+example : ∀ ld, flagExactLoader exFlag = .ok ld →
+    ld (flagExactDumper (unionOf [⟨"AB", 3⟩, ⟨"Z", 0⟩, ⟨"A", 1⟩])) = .ok (unionOf [⟨"AB", 3⟩, ⟨"Z", 0⟩, ⟨"A", 1⟩]) :=
+  fun _ hl => flag_exact_rt hl (by decide)
+
+example : (flagExactLoader exFlag).isOk = true := (flag_exact_creation exFlag (by decide)).1.2 (by decide)
+
+/-- `flag_list_rt` applied under several option combinations (name style LOWER) -/
+example (o : ListOpts) (ho : o = {} ∨ o = { allowDuplicates := false } ∨
+      o = { allowSingleValue := true, strictCoercion := false }) :
+    ∀ ld dp, flagListLoader exFlag lowerCfg o = .ok ld → flagListDumper exFlag lowerCfg o = .ok dp →
+      ld (.list ((dp (unionOf [⟨"AB", 3⟩, ⟨"C", 4⟩, ⟨"Z", 0⟩])).map Atom.str)) = .ok 7 := by
+  intro ld dp hl hd
+  have hinj : InjectiveCaseNames exFlag lowerCfg o := by rcases ho with rfl | rfl | rfl <;> decide
+  have hS : ∀ s ∈ [(⟨"AB", 3⟩ : FlagCase), ⟨"C", 4⟩, ⟨"Z", 0⟩], s ∈ exFlag.getCases o := by
+    rcases ho with rfl | rfl | rfl <;> decide
+  exact flag_list_rt hl hd hinj hS
+
+/-- `flag_list_rt_noncompound_partial` applied -/
+example : ∀ ld dp, flagListLoader exFlag lowerCfg { allowCompound := false } = .ok ld →
+    flagListDumper exFlag lowerCfg { allowCompound := false } = .ok dp →
+    ld (.list ((dp (unionOf [⟨"AB", 3⟩, ⟨"C", 4⟩])).map Atom.str)) = .ok (unionOf [⟨"AB", 3⟩, ⟨"C", 4⟩]) :=
+  fun _ _ hl hd => flag_list_rt_noncompound_partial rfl hl hd (by decide) exFlag_everyBitNamed (by decide)
+
+/-- `creation_total` applied -/
+example (o : ListOpts) : (flagListLoader exFlag lowerCfg o).isOk = true ∧ (flagListDumper exFlag lowerCfg o).isOk = true :=
+  creation_total exFlag lowerCfg o (by decide) (by decide)
 
 end Adaptix.Enum.C18
